@@ -202,6 +202,22 @@ func c18objects(seed int64, keys *gen.KeyRing, n int) []*c18object {
 					continue
 				}
 				m = d
+				if (i/14)%3 == 1 {
+					// the application attached something to the parsed unprotected map after decoding and left the
+					// retained raw bytes alone (which therefore still win on encoding): a countersignature holder,
+					// an abbreviated countersignature, a kid
+					if m.Headers.Unprotected == nil {
+						m.Headers.Unprotected = cose.UnprotectedHeader{}
+					}
+					switch (i / 42) % 3 {
+					case 0:
+						m.Headers.Unprotected[int64(11)] = &cose.Countersignature{Headers: cose.Headers{Protected: cose.ProtectedHeader{int64(1): cose.AlgorithmES256}, Unprotected: cose.UnprotectedHeader{}}, Signature: []byte{1, 2, 3}}
+					case 1:
+						m.Headers.Unprotected[int64(12)] = []byte{1, 2, 3}
+					default:
+						m.Headers.Unprotected[int64(4)] = []byte("added later")
+					}
+				}
 			}
 			o := &c18object{name: fmt.Sprintf("sign1-%d", i), kind: "sign1", alg: k.Name, dec: decoded}
 			o.state = func() []any { return []any{m, ext, k.Verifier} }
@@ -355,6 +371,18 @@ func c18objects(seed int64, keys *gen.KeyRing, n int) []*c18object {
 			}
 			if (i/7)%2 == 1 {
 				ck.Algorithm = cose.AlgorithmReserved // no alg parameter: the algorithm is derived from the curve on every use
+			}
+			if !decoded && (i/14)%2 == 1 {
+				// a hand-assembled key: the curve given as a plain Go integer, not as a cose.Curve
+				for _, l := range []any{int64(-1)} {
+					if cv, ok := ck.Params[l].(cose.Curve); ok {
+						if (i/28)%2 == 0 {
+							ck.Params[l] = int64(cv)
+						} else {
+							ck.Params[l] = int(cv)
+						}
+					}
+				}
 			}
 			if decoded {
 				b, _ := ck.MarshalCBOR()
